@@ -81,6 +81,23 @@ def neighbours(k, kind, rng):
     return sorted(out)
 
 
+def near_miss_gets(h, rng, count):
+    """lookups (and a removal attempt) of keys that differ from a STORED key in one byte - including bytes that lie inside an
+    inner node's key prefix or below the last dispatch byte, where only the prefix comparison / the final leaf-key comparison
+    can tell the keys apart"""
+    stored = sorted(h.keys)
+    if not stored:
+        return
+    for _ in range(count):
+        nb = neighbours(rng.choice(stored), h.kind, rng)
+        if not nb:
+            continue
+        x = rng.choice(nb)
+        h.get(x)
+        if x not in h.keys and rng.chance(1, 4):
+            h.rem(x)
+
+
 def scans_for(h, rng, count, scan_ops=True):
     """append scan operations with interesting bounds"""
     if not scan_ops:
@@ -146,7 +163,10 @@ def dense_history(rng, kind, scan_ops, nmax):
             h.ins(k, rnd_val(rng))  # duplicate
         if rng.chance(1, 4):
             h.get(rng.choice(keys))
+        if rng.chance(1, 5):
+            near_miss_gets(h, rng, 2)
         h.op('D')
+    near_miss_gets(h, rng, 6)
     scans_for(h, rng, 6, scan_ops)
     rorder = rng.choice(['asc', 'desc', 'rand'])
     rk = sorted(h.keys)
@@ -211,8 +231,10 @@ def structured_history(rng, kind, scan_ops, nops):
             k = rnd_key()
             if k not in h.keys:
                 h.rem(k)
-        elif r < 88:
+        elif r < 85:
             h.get(rng.choice(h.everkeys) if h.everkeys and rng.chance(2, 3) else rnd_key())
+        elif r < 88:
+            near_miss_gets(h, rng, 2)
         elif r < 90:
             h.op('E')
         elif r < 91:
